@@ -4,6 +4,7 @@ Model: `Model/Convert.lean`, exact float views in `Model/Float.lean`.
 -/
 import MechVerif.Model.Convert
 import MechVerif.Lemmas.Broadcast
+import MechVerif.Gen.ConvertTables
 namespace MechVerif.Convert
 open MechVerif.Num MechVerif.Scalar MechVerif.Mat MechVerif.FloatX
 
@@ -148,11 +149,43 @@ theorem C12_mat_to_set_distinct {α : Type} [DecidableEq α] (m : Mat α) :
   intro x
   rw [List.mem_reverse, h2 x, List.mem_reverse]
 
+/-! ### the acceptance tables as written in the source (regenerated on every run: `Gen/ConvertTables.lean`) -/
+section written
+open MechVerif.Gen.ConvertTables
+
+/-- The kind annotation of a scalar answers `UnsupportedConversion` exactly for the (source, target) pairs that have
+    neither a row in `impl_conversion_match_arms!` nor an arm of their own in scalar.rs, as read from the source. -/
+theorem C12_scalar_annotation_refuses_outside_written_table (ci : ConvImpl) (k1 k2 : Kind) (v : Val)
+    (hv : valOfKind k1 v = true) :
+    convertScalarImpl ci k1 k2 v = .error .kind ↔
+      (scalarRows.contains (k1.rustType, k2.rustType) || scalarExplicit.contains (k1.variantName, k2.variantName)) = false := by
+  rw [convertScalarImpl_kind_error_iff ci k1 k2 v hv, (tableAgrees_iff _ _).mp C12_scalar_table_is_model k1 k2]
+
+/-- The same for the matrix annotation and the rows of `impl_conversion_mat_to_mat_fxn!` (a matrix of the target's
+    element kind is passed through; complex → string is in the source's table and not in the model). -/
+theorem C12_matrix_annotation_refuses_outside_written_table (ci : ConvImpl) (k1 k2 : Kind) (v : Val)
+    (hv : valOfKind k1 v = true) :
+    convertElemImpl ci k1 k2 v = .error .kind ↔
+      ((matRows.contains (k1.rustType, k2.rustType) || (matPassthroughSameKind && k1 == k2)) && !matNotModelled k1 k2) = false := by
+  rw [convertElemImpl_kind_error_iff ci k1 k2 v hv, (tableAgrees_iff _ _).mp C12_mat_table_is_model k1 k2]
+
+/-- `is_convertible_to` as written is `implicitlyConvertible` on every pair of kinds, and what it lets through (a kind
+    onto itself aside) the kind annotation accepts too. -/
+theorem C12_is_convertible_as_written (k1 k2 : Kind) :
+    (convertiblePairs.contains (k1.variantName, k2.variantName) || (convertibleDefaultIsEquality && k1 == k2)) =
+      implicitlyConvertible k1 k2 ∧
+    (implicitlyConvertible k1 k2 = true → k1 ≠ k2 → scalarAccepts k1 k2 = true) :=
+  ⟨(tableAgrees_iff _ _).mp C12_is_convertible_table_is_model k1 k2, implicit_within_annotation k1 k2⟩
+
+end written
+
 /-! ### non-vacuity -/
 example : wrapTo .u8 300 = 44 ∧ wrapTo .i8 200 = -56 ∧ wrapTo .u64 (-1) = 18446744073709551615 := by decide
 example : floatToInt 0 255 (decode64 0x4072c80000000000) = 255 := by decide   -- 300.5
 example : floatToInt (-128) 127 (decode64 0xc00feb851eb851ec) = -3 := by decide   -- -3.99
 example : reshape (⟨2, 3, [1, 4, 2, 5, 3, 6]⟩ : Mat Nat) 3 2 = .ok ⟨3, 2, [1, 4, 2, 5, 3, 6]⟩ := by decide
 example : toSetList (⟨1, 5, [1, 2, 2, 3, 1]⟩ : Mat Nat) = [1, 2, 3] := by decide
+example : implicitlyConvertible (.int .u8) (.int .i16) = true ∧ implicitlyConvertible (.int .u8) (.int .i8) = false ∧
+    scalarAccepts (.int .u8) (.int .i8) = true ∧ scalarAccepts .r64 .r64 = false ∧ matAccepts .bool (.int .u8) = true := by decide
 
 end MechVerif.Convert
